@@ -548,6 +548,15 @@ func (a *Alias) callFlow(fn *ssa.Function, site ssa.CallInstruction, tainted map
 			if len(c.Args) >= 1 && isT(c.Args[0]) && res != nil {
 				changed = mark(res) || changed
 			}
+			// appending to a slice derived from the source writes into the source's backing array whenever it
+			// has spare capacity (a sub-slice, a spread variadic argument)
+			if len(c.Args) >= 2 && tainted[c.Args[0]] {
+				if _, isAlloc := root(c.Args[0], 0).(*ssa.Alloc); !isAlloc {
+					if sl, ok := c.Args[0].(*ssa.Slice); !ok || sl.Max == nil {
+						addEv(&AliasEvent{Kind: "mutate", Fn: fn, Pos: site.Pos(), What: "append to a slice derived from the source: with spare capacity the new elements are written into the source's backing array", Instr: site})
+					}
+				}
+			}
 			if len(c.Args) >= 2 && isT(c.Args[1]) && res != nil && pointerBearingElem(c.Args[1].Type()) {
 				changed = mark(res) || changed
 			}
